@@ -17,7 +17,7 @@ import numpy as np
 
 from sim import kernel, scenes, seams
 from sim.digest import chunk_parts, parts_digest, frame_digest, rng_state_equal
-from sim.minimise import ddmin
+from sim.minimise import shrink_history
 from sim.threads import Injected, InjectedBase, src_prefix
 
 PROP = 'C09'
@@ -318,25 +318,22 @@ def child_main(argv):
     return 0
 
 
-def minimise(pool, prelude, ops, vio, clock_seed):
-    """Shrink in fresh interpreters (the in-process `seen` table must start empty)."""
-    want = (vio['clause'], vio['op'])
-    all_ops = [o for h in prelude for o in h] + list(ops)
-
-    def fails(sub):
-        ans = _in_child({'mode': 'history', 'pool': pool, 'histories': [sub],
-                         'clock_seed': clock_seed, 'hashseed': 0})
-        v = ans['violation']
-        return v is not None and (v['clause'], v['op']) == want
-    if not fails(all_ops):
+def shrink(vio, evaluate):
+    if vio['case'].get('fresh'):
+        return evaluate(vio['case'])
+    small = shrink_history(vio, evaluate, max_runs=40)
+    if small is None:
         return None
-    small = ddmin(all_ops, fails, max_runs=30)
-    ans = _in_child({'mode': 'history', 'pool': pool, 'histories': [small],
-                     'clock_seed': clock_seed, 'hashseed': 0})
-    used = sorted({o[1] for o in small if o[0] == 'run'})
+    case = small['case']
+    ops = [o for h in case.get('prelude', []) for o in h] + case['ops']
+    used = sorted({o[1] for o in ops if o[0] == 'run'})
     remap = {old: new for new, old in enumerate(used)}
-    small = [[o[0], remap[o[1]]] if o[0] == 'run' else o for o in small]
-    return _package([pool[i] for i in used], small, ans['violation'], clock_seed)
+    cand = dict(case, pool=[case['pool'][i] for i in used], prelude=[],
+                ops=[[o[0], remap[o[1]]] if o[0] == 'run' else o for o in ops])
+    v = evaluate(cand)
+    if v is not None and v['clause'] == small['clause']:
+        return v
+    return small
 
 
 def replay(case):
@@ -428,11 +425,8 @@ def execute(run):
             out['samples'].append({'pool': [{'class': p['cls'], 'rows': len(p['rows']),
                                              'prms': p['prms']} for p in pool], 'ops': ops})
         if vio is not None:
-            small = minimise(pool, prelude, ops, vio, clock_seed)
-            if small is None:
-                raise kernel.HarnessError(f'C09 violation not reproducible in a fresh '
-                                          f'interpreter: {vio}')
-            out['violations'].append(small)
+            out['violations'].append(_package(pool, ops[:vio['pos'] + 1], vio, clock_seed,
+                                              prelude))
             break
         prelude.append(ops)
     stats['probe.same_scene_at_3_or_more_positions'] = \
@@ -451,10 +445,11 @@ def execute(run):
         out['log'].append(['fresh', hashseed, ans['seen']])
         diff = sorted(k for k in ans['seen'] if k in seen and seen[k] != ans['seen'][k])
         if ans['violation'] or diff:
-            vio = _replay_fresh(case)
-            if vio is None:
-                raise kernel.HarnessError(f'cross-process difference not reproducible: {diff}')
-            out['violations'].append(vio)
+            out['violations'].append({
+                'clause': 'fresh-process-differs',
+                'signature': {'clause': 'fresh-process-differs', 'op': 'fresh'}, 'case': case,
+                'observed': f'fresh interpreter (PYTHONHASHSEED={hashseed}) differs in '
+                            f'{diff[:4]} / {ans["violation"]}'})
     out['sets']['clock_span'] = {stats.pop('clock_span_s', 0)}
     return out
 
